@@ -47,5 +47,82 @@ theorem getSlice_view [BEq σ] (t : Text σ) (a b : Option Int) (h : Inv t)
   simp only [List.map_cons, List.map_nil, List.cons.injEq, and_true] at hview
   exact ⟨l1, rfl, (hall l1 (by simp)).1, (hall l1 (by simp)).2.1, hview.2.1⟩
 
+/-- every entry of the span stack at the beginning of the line starting at `s` starts at or after `s` -/
+theorem lineSpans_reversed (spans : List (Span σ)) (s : Nat) (e : Int) (todo : List (Nat × Span σ))
+    (hT : TodoInv spans s todo) (hes : e ≤ (s : Int)) : lineSpans (s : Int) e todo = [] := by
+  cases todo with
+  | nil => rfl
+  | cons p ps =>
+    obtain ⟨o, _, _, _, hstart, _⟩ := hT.entry p (by simp)
+    have : ¬ (p.2.start < e) := by omega
+    simp [lineSpans, List.takeWhile_cons, this, Py.sortByKey]
+
+/-- `divide([s, e])` with `e < s` (what `text[a:b]` asks for when the bounds normalise to `stop < start`):
+the middle line is the empty text, with no spans -/
+theorem divide_reversed_middle [BEq σ] (t : Text σ) (s e : Nat) (h : Inv t) (hs : s ≤ t.plain.length) (hes : e < s) :
+    ∃ l0 l2 rest, t.divide Variant.repaired [s, e] =
+      .ok (l0 :: { lineOf t ((s : Int), (e : Int)) with spans := [] } :: l2 :: rest) := by
+  unfold divide
+  simp only [List.isEmpty_cons, Bool.false_eq_true, if_false]
+  rw [lineRanges_eq, newLines_zip]
+  simp only [rangesFrom, List.map_cons, List.map_nil]
+  by_cases hsp : t.spans.isEmpty = true
+  · rw [if_pos hsp]
+    exact ⟨_, _, [], by rw [newLines_eq]; rfl⟩
+  · rw [if_neg hsp]
+    have : Variant.repaired.divideOrder = false := rfl
+    simp only [this, Bool.false_eq_true, if_false]
+    rw [divLines_cons _ _ _ _ _ (lineOf_spans t _), divLines_cons _ _ _ _ _ (lineOf_spans t _),
+      divLines_cons _ _ _ _ _ (lineOf_spans t _)]
+    have hT1 := todoInv_next t.spans 0 s (Nat.zero_le _) _ (todoInv_init t h)
+    rw [lineSpans_reversed t.spans s (e : Int) _ hT1 (by omega)]
+    exact ⟨_, _, _, rfl⟩
+
+/-- **`text[a:b]` is the slice of the styled string**, for every pair of bounds — `None`, negative, beyond
+either end, and bounds that normalise to `stop < start` (empty result), exactly as for `str`. -/
+theorem getSlice_view_all [BEq σ] (t : Text σ) (a b : Option Int) (h : Inv t) :
+    ∃ u, t.getSlice Variant.repaired a b = .ok u ∧ Inv u ∧ u.style = t.style ∧
+      u.view = (t.view.drop (Py.sliceIndices t.plain.length a b).1).take
+        ((Py.sliceIndices t.plain.length a b).2 - (Py.sliceIndices t.plain.length a b).1) := by
+  by_cases hse : (Py.sliceIndices t.plain.length a b).1 ≤ (Py.sliceIndices t.plain.length a b).2
+  · exact getSlice_view t a b h hse
+  · obtain ⟨h1, _⟩ := sliceIndices_le t.plain.length a b
+    unfold getSlice
+    generalize Py.sliceIndices t.plain.length a b = se at hse h1 ⊢
+    obtain ⟨s, e⟩ := se
+    simp only [] at hse h1 ⊢
+    obtain ⟨l0, l2, rest, hdiv⟩ := divide_reversed_middle t s e h h1 (by omega)
+    rw [hdiv]
+    have hz : e - s = 0 := by omega
+    have hp : (lineOf t ((s : Int), (e : Int))).plain = [] := by
+      rw [lineOf_plain t h s e, hz]; rfl
+    refine ⟨_, rfl, ⟨?_, ?_, ?_⟩, rfl, ?_⟩
+    · show (lineOf t ((s : Int), (e : Int))).length = _
+      have : (lineOf t ((s : Int), (e : Int))).length = (((lineOf t ((s : Int), (e : Int))).plain.length : Nat) : Int) := rfl
+      rw [this]
+    · show ∀ c ∈ (lineOf t ((s : Int), (e : Int))).plain, _
+      rw [hp]; intro c hc; simp at hc
+    · intro sp hsp; simp at hsp
+    · rw [hz, List.take_zero, view_eq_annot]
+      show annot (lineOf t ((s : Int), (e : Int))).plain _ 0 = []
+      rw [hp]; rfl
+
+/-- `text[a:b:step]`: a step of 0 raises `ValueError` (from `slice.indices`), any other step than 1 is refused
+with `TypeError`, `None`/1 is the plain slice -/
+theorem getSliceStep_spec [BEq σ] (t : Text σ) (a b step : Option Int) :
+    t.getSliceStep Variant.repaired a b step =
+      (if step = some 0 then .error .valueError
+       else if step = none ∨ step = some 1 then t.getSlice Variant.repaired a b
+       else .error .typeError) := by
+  unfold getSliceStep
+  cases step with
+  | none => simp
+  | some k =>
+    by_cases h0 : k = 0
+    · subst h0; simp
+    · by_cases h1 : k = 1
+      · subst h1; simp
+      · simp [h0, h1]
+
 end Text
 end RichModel
